@@ -17,19 +17,31 @@ def sh(cmd, cwd=None, timeout=3600, env=None):
 
 res = {'ran': []}
 patch = os.path.join(out, 'patch.diff')
-# make sure the worktree holds exactly the patch
-sh('git checkout -- . ', cwd=wt)
-rc, o = sh('git apply %s' % patch, cwd=wt)
-res['patch_applies'] = rc == 0
+# make sure the worktree holds exactly the patch (a patch written against an older base is merged three-way: later `fix:` commits may touch
+# neighbouring lines)
+def restore():
+    sh('git reset -q --hard HEAD', cwd=wt)
+
+
+def apply_patch():
+    rc, o = sh('git apply %s' % patch, cwd=wt)
+    if rc != 0:
+        rc, o = sh('git apply --3way %s && git reset -q' % patch, cwd=wt)
+        res['patch_applied_three_way'] = rc == 0
+    return rc == 0
+
+
+restore()
+res['patch_applies'] = apply_patch()
 rc, o = sh('cmake -G Ninja -S . -B _build -DLIB_POTASSCO_BUILD_TESTS=ON -DCMAKE_BUILD_TYPE=RelWithDebInfo >/dev/null && cmake --build _build >/dev/null 2>&1 && ctest --test-dir _build 2>&1 | tail -3', cwd=wt)
 res['tests_pass_with_change'] = (rc == 0 and '100% tests passed' in o)
 res['ran'].append('cmake --build + ctest in the worktree with the change: ' + ('pass' if res['tests_pass_with_change'] else 'FAIL'))
 rc, o = sh('sh demo.sh', cwd=out)
 res['demo_fails_with_change'] = rc != 0
-sh('git checkout -- .', cwd=wt)
+restore()
 rc, o = sh('sh demo.sh', cwd=out)
 res['demo_passes_without_change'] = rc == 0
-sh('git apply %s' % patch, cwd=wt)
+apply_patch()
 res['ran'].append('demo.sh with change: %s; without: %s' % ('fails' if res['demo_fails_with_change'] else 'PASSES', 'passes' if res['demo_passes_without_change'] else 'FAILS'))
 t0 = time.time()
 rc, o = sh('./check %s --tier quick' % pid, cwd=ROOT, env={'VERIF_REPO': wt})
